@@ -46,6 +46,9 @@ class C60(hc.PProp):
                 t['vsize'] = rng.choice([100000, 300000, 1000000]); t['slow'] = rng.choice([[4096, 2000], [16384, 3000], [1024, 300]])
                 if rng.random() < 0.6:
                     t['beh'] = rng.choice(['204_in_preview', '204_in_preview', '204', '100_then_204'])
+            if t['beh'] in ('close_mid_body', 'reset_mid_body', 'stall_mid_body') and rng.random() < 0.5:
+                t['nocl'] = True     # adapted message without Content-Length: only squid's own framing can tell the client that the body was cut short
+                t['asize'] = max(t['asize'], 3000)
             hc.bound_transfer({'size': t['asize'], 'seg': t['seg'], 'pace': 0}, plan['knobs'])
             if t['seg'] == 'byte' and t['asize'] > 3000:
                 t['seg'] = 'rand'
@@ -84,7 +87,7 @@ class C60(hc.PProp):
             has_body = t['vsize'] > 0 or mode == 'respmod'   # a GET in reqmod has a null-body; a 0-length response body is still a body
             in_preview = preview_on and has_body and (t['vsize'] > P)
             if mode == 'respmod':
-                ahead = hc.response_head(200, [(b'X-Adapted', b'1'), (b'X-Sim-Ver', akey.encode())] + ([(b'Content-Length', b'%d' % t['asize'])] if t['beh'] != '200_chunked_nocl' else []))
+                ahead = hc.response_head(200, [(b'X-Adapted', b'1'), (b'X-Sim-Ver', akey.encode())] + ([(b'Content-Length', b'%d' % t['asize'])] if t['beh'] != '200_chunked_nocl' and not t.get('nocl') else []))
                 enc = b'res-hdr=0, res-body=%d' % len(ahead)
             else:
                 ahead = hc.request_head(b'POST', b'http://10.0.0.1/i%d' % t['id'], [(b'Host', b'10.0.0.1'), (b'X-Sim-Req', rid.encode()), (b'X-Adapted', b'1'), (b'Content-Length', b'%d' % t['asize'])])
